@@ -13,6 +13,7 @@ import (
 	"path"
 	"path/filepath"
 	"slices"
+	"sync"
 	"text/template"
 	"time"
 
@@ -44,6 +45,10 @@ type HTMLReport struct {
 
 	// bestResults is the best results for each asset.
 	bestResults []*htmlReportResult
+
+	// mutex guards the asset results and the best results,
+	// as the backtest workers report concurrently.
+	mutex sync.Mutex
 
 	// WriteStrategyReports indicates whether the individual strategy reports should be generated.
 	WriteStrategyReports bool
@@ -102,6 +107,9 @@ func (h *HTMLReport) Begin(assetNames []string, _ []strategy.Strategy) error {
 
 // AssetBegin is called when backtesting for the given asset begins.
 func (h *HTMLReport) AssetBegin(name string, strategies []strategy.Strategy) error {
+	h.mutex.Lock()
+	defer h.mutex.Unlock()
+
 	_, ok := h.assetResults[name]
 	if ok {
 		return fmt.Errorf("asset has already begun: %s", name)
@@ -136,33 +144,42 @@ func (h *HTMLReport) Write(assetName string, currentStrategy strategy.Strategy, 
 		go helper.Drain(snapshots)
 	}
 
-	// Get asset strategy results.
-	results, ok := h.assetResults[assetName]
+	// Check that the asset has begun.
+	h.mutex.Lock()
+	_, ok := h.assetResults[assetName]
+	h.mutex.Unlock()
+
 	if !ok {
 		return fmt.Errorf("asset has not begun: %s", assetName)
 	}
 
-	// Append current strategy result for the asset.
-	h.assetResults[assetName] = append(results, &htmlReportResult{
+	result := &htmlReportResult{
 		AssetName:    assetName,
 		StrategyName: currentStrategy.Name(),
 		Action:       <-actions,
 		Since:        <-sinces,
 		Outcome:      <-outcomes * 100,
 		Transactions: <-transactions,
-	})
+	}
+
+	// Append current strategy result for the asset.
+	h.mutex.Lock()
+	h.assetResults[assetName] = append(h.assetResults[assetName], result)
+	h.mutex.Unlock()
 
 	return nil
 }
 
 // AssetEnd is called when backtesting for the given asset ends.
 func (h *HTMLReport) AssetEnd(name string) error {
+	h.mutex.Lock()
 	results, ok := h.assetResults[name]
+	delete(h.assetResults, name)
+	h.mutex.Unlock()
+
 	if !ok {
 		return fmt.Errorf("asset has not begun: %s", name)
 	}
-
-	delete(h.assetResults, name)
 
 	// Sort the backtest results by the outcomes.
 	slices.SortFunc(results, func(a, b *htmlReportResult) int {
@@ -173,7 +190,10 @@ func (h *HTMLReport) AssetEnd(name string) error {
 
 	// Report the best result for the current asset.
 	h.Logger.Info("Best outcome", "asset", name, "strategy", bestResult.StrategyName, "outcome", bestResult.Outcome)
+
+	h.mutex.Lock()
 	h.bestResults = append(h.bestResults, bestResult)
+	h.mutex.Unlock()
 
 	// Write the asset report.
 	err := h.writeAssetReport(name, results)
